@@ -389,7 +389,7 @@ func (m *monitor) trackedIds(n *node) []string {
 	return ids
 }
 
-func (m *monitor) observe(n *node, tag string) {
+func (m *monitor) observe(n *node, phase, tag string) {
 	w := m.w
 	nm := m.per[n.idx]
 	adv := map[string]bool{}
@@ -413,11 +413,11 @@ func (m *monitor) observe(n *node, tag string) {
 		if ok {
 			nm.hadEntry[id] = true
 		} else if nm.hadEntry[id] && prev >= headstorage.DeletedStatusQueued {
-			m.violate("tombstone-entry-lost:"+tag, "the head-storage entry of a tombstoned id disappeared", map[string]any{"node": n.idx, "id": w.label(id), "was": statusName(prev)})
+			m.violate("tombstone-entry-lost:"+phase, "the head-storage entry of a tombstoned id disappeared", map[string]any{"node": n.idx, "id": w.label(id), "was": statusName(prev)})
 		}
 		if st < prev {
-			m.violate("status-regressed:"+statusName(prev)+"->"+statusName(st)+":"+tag, "tombstone status went backwards",
-				map[string]any{"node": n.idx, "id": w.label(id), "before": statusName(prev), "now": statusName(st)})
+			m.violate("status-regressed:"+statusName(prev)+"->"+statusName(st)+":"+phase, "tombstone status went backwards",
+				map[string]any{"node": n.idx, "id": w.label(id), "before": statusName(prev), "now": statusName(st), "after": tag})
 		} else {
 			nm.status[id] = st
 		}
@@ -426,9 +426,9 @@ func (m *monitor) observe(n *node, tag string) {
 			det := map[string]any{"node": n.idx, "id": w.label(id), "status": statusName(st), "pending_head_notifications": len(n.obsQ), "after": tag}
 			switch {
 			case adv[id] && quiescent:
-				m.violate("advertised-tombstoned-id:quiescent:"+tagClass(tag), "a tombstoned id is in the advertised id set although every head-storage notification was processed", det)
+				m.violate("advertised-tombstoned-id:quiescent:"+phase, "a tombstoned id is in the advertised id set although every head-storage notification was processed", det)
 			case adv[id] && nm.absent[id]:
-				m.violate("advertised-tombstoned-id:returned:"+tagClass(tag), "a tombstoned id returned to the advertised id set", det)
+				m.violate("advertised-tombstoned-id:returned:"+phase, "a tombstoned id returned to the advertised id set", det)
 			}
 			if !adv[id] {
 				nm.absent[id] = true
@@ -439,7 +439,7 @@ func (m *monitor) observe(n *node, tag string) {
 		}
 		ex := n.delState.Exists(id)
 		if nm.exists[id] && !ex {
-			m.violate("deletionstate-forgot-id:"+tagClass(tag), "deletionstate.Exists went from true to false", map[string]any{"node": n.idx, "id": w.label(id)})
+			m.violate("deletionstate-forgot-id:"+phase, "deletionstate.Exists went from true to false", map[string]any{"node": n.idx, "id": w.label(id)})
 		}
 		if ex {
 			nm.exists[id] = true
@@ -448,13 +448,6 @@ func (m *monitor) observe(n *node, tag string) {
 			w.count("obs.memory_queued_but_storage_alive", 1)
 		}
 	}
-}
-
-func tagClass(tag string) string {
-	if i := strings.Index(tag, ":"); i > 0 {
-		return tag[:i]
-	}
-	return tag
 }
 
 // ---------------------------------------------------------------- deleter run
